@@ -43,7 +43,7 @@ func NewPattern(components ...any) Pattern {
 			}
 			comps[len(comps)-1].Literal += string(v)
 		case Wildcard:
-			if len(comps) == 0 || comps[len(comps)-1].Literal != "" {
+			if len(comps) == 0 || !comps[len(comps)-1].Wildcard || comps[len(comps)-1].Literal != "" {
 				comps = append(comps, patternComponent{Wildcard: true, Literal: ""})
 			}
 		default:
